@@ -15,7 +15,7 @@ import (
 func RunC02(tier string) int {
 	run := report.New("C02", tier, "exploration",
 		"seeded random workspaces x histories mixing edits, no-op rebuilds, output-path perturbations (deleted, parent dir deleted, modified, truncated, stale extra entries, file where a dir should be), "+
-			"quiet command changes (early cut-off), relocated checkouts and perturbed process environments, in both load_outputs modes and hash algorithms; the executed set of every build is compared with the reference model; "+
+			"quiet command changes (early cut-off), destroyed output-check conditions and grog taint on cached targets, relocated checkouts and perturbed process environments, in both load_outputs modes and hash algorithms; the executed set of every build is compared with the reference model; "+
 			"non-trivial = the history contained a build with zero executions and a build where some but not all selected targets executed; distinct = workspace shape + step sequence")
 	st, err := Prepare(run, false)
 	if err != nil {
@@ -30,6 +30,18 @@ func RunC02(tier string) int {
 		pf.Multiplatform = r.Chance(1, 2)
 		pf.Tests = r.Chance(1, 2) // test targets: some builds of the history are `grog test` invocations
 		s := spec.Gen(r, pf)
+		// the other reasons to execute: a quarter of the targets has an output check on a condition
+		// outside the workspace outputs which the command itself establishes (so builds keep
+		// succeeding); histories destroy the condition, and taint cached targets
+		var checked []*spec.Target
+		for _, t := range s.Targets {
+			if r.Chance(1, 4) && !t.HasTag("no-cache") {
+				m := "markers/c02ok_" + t.MID()
+				t.Checks = append(t.Checks, spec.Check{Marker: m})
+				t.Touch = m
+				checked = append(checked, t)
+			}
+		}
 		gcfg := randCfg(r)
 		cfg := BuildCfg{EnableCache: true}
 		if r.Chance(1, 3) {
@@ -63,7 +75,31 @@ func RunC02(tier string) int {
 				name = "noop"
 			} else if k > 0 {
 				name = ""
-				switch x := r.Intn(21); {
+				switch x := r.Intn(24); {
+				case x >= 22:
+					// the externally checked condition of a target is destroyed: exactly that target
+					// executes (its outputs come out the same: dependants are cut off)
+					if len(checked) > 0 {
+						t := rng.Pick(r, checked)
+						if env.Spec.Target(t.Label()) != nil {
+							env.SetMarker(t.Touch, false)
+							env.Logf("check condition of %s destroyed", t.Label())
+							run.Count("check_conditions_destroyed", 1)
+							name = "check-condition-destroyed"
+						}
+					}
+				case x == 21:
+					// grog taint on a cached target
+					if ts := env.CachedTargetsWithOutputs(); len(ts) > 0 {
+						t := rng.Pick(r, ts)
+						if env.RunTaint([]string{t.Label()}).Exit != 0 {
+							run.Count("histories_abandoned(grog taint refused)", 1)
+							return
+						}
+						env.Taint[t.Label()] = true
+						run.Count("targets_tainted", 1)
+						name = "taint"
+					}
 				case x == 20:
 					// a build with the cache switched off, then two unchanged builds with the cache
 					// on: whatever the first of them has to re-execute, the second executes nothing
@@ -123,7 +159,7 @@ func RunC02(tier string) int {
 				}
 			}
 			names = append(names, name)
-			if name != "noop" && name != "relocate-checkout" && name != "env-perturbed" && name != "switch-platform" && !strings.HasSuffix(name, "cache-disabled-build") && !strings.HasPrefix(name, "out-") && !strings.HasPrefix(name, "dir-out") && name != "file-where-dir-should-be" {
+			if name != "noop" && name != "taint" && name != "check-condition-destroyed" && name != "relocate-checkout" && name != "env-perturbed" && name != "switch-platform" && !strings.HasSuffix(name, "cache-disabled-build") && !strings.HasPrefix(name, "out-") && !strings.HasPrefix(name, "dir-out") && name != "file-where-dir-should-be" {
 				bo.Patterns = somePatterns(r, env.Spec)
 			}
 			ext := ""
